@@ -174,6 +174,18 @@ def _materialise(kind, spelling):
         return str(spelling)
     if kind == "py":
         return _PY[spelling]()
+    if kind == "bool":
+        return bool(int(spelling))
+    if kind == "intenum":
+        import enum
+
+        return enum.IntEnum("Setting", {"MEMBER": int(spelling)}).MEMBER
+    if kind == "intsub":
+        return type("Level", (int,), {})(int(spelling))
+    if kind == "decimal":
+        from decimal import Decimal
+
+        return Decimal(spelling)
     raise core.HarnessError(f"unknown input kind {kind}")
 
 
@@ -360,7 +372,50 @@ def case_sequence(p):
     return out
 
 
-CASES = {"numeric": case_numeric, "garbage": case_garbage, "bool": case_bool, "sequence": case_sequence}
+DEC_CONTEXTS = {
+    "extended": lambda d: d.ExtendedContext.copy(),  # precision 9, no traps: what decimal.setcontext(ExtendedContext) leaves behind
+    "basic": lambda d: d.BasicContext.copy(),  # precision 9, most traps on
+    "prec6": lambda d: d.Context(prec=6),
+    "prec3-down": lambda d: d.Context(prec=3, rounding=d.ROUND_DOWN),
+    "prec60": lambda d: d.Context(prec=60),
+}
+
+
+def case_context(p):
+    """The calling thread's decimal context is the caller's (another component may have changed it): preparing a value does the same under
+    every context as under the default one."""
+    import decimal
+
+    fmt, lo, hi, st, kind, v = p["fmt"], p["lo"], p["hi"], p["st"], p["kind"], p["v"]
+    base, _ = _run_seams(fmt, lo, hi, st, kind, v)
+    saved = decimal.getcontext()
+    try:
+        decimal.setcontext(DEC_CONTEXTS[p["context"]](decimal))
+        other, _ = _run_seams(fmt, lo, hi, st, kind, v)
+        left = decimal.getcontext()
+        if left.prec != DEC_CONTEXTS[p["context"]](decimal).prec:
+            return [("caller-s-decimal-context-changed-by-the-call", {"context": p["context"], "prec_now": left.prec})]
+    finally:
+        decimal.setcontext(saved)
+    if _same(base, other):
+        return []
+    # (where the property leaves a choice - step-less ties - the choice may legitimately follow the caller's rounding mode: what comes out under
+    # the other context is judged by the property itself, not by equality with the default context's answer)
+    jv, _ = _judge_numeric(fmt, lo, hi, st, kind, v, other)
+    return [(sig + ":under-another-decimal-context", dict(d, context=p["context"], default=repr(base), under_context=repr(other))) for sig, d in jv]
+
+
+def case_numkind(p):
+    """An integer-valued input is the same number whatever Python type carries it (bool, an IntEnum member, an int subclass, a Decimal)."""
+    fmt, lo, hi, st, kind, v = p["fmt"], p["lo"], p["hi"], p["st"], p["kind"], p["v"]
+    base, _ = _run_seams(fmt, lo, hi, st, "int", v)
+    other, viol = _run_seams(fmt, lo, hi, st, kind, v)
+    if not _same(base, other):
+        viol = viol + [(f"result-depends-on-the-python-type-of-an-integer-valued-input:{kind}", {"as_int": repr(base), f"as_{kind}": repr(other)})]
+    return viol
+
+
+CASES = {"context": case_context, "numkind": case_numkind, "numeric": case_numeric, "garbage": case_garbage, "bool": case_bool, "sequence": case_sequence}
 
 
 # ---------------------------------------------------------------- alphabets
@@ -568,6 +623,12 @@ def _work(item, seed, tier):
             acc.case(key=("seq", core.jsonable(p)), outcome=viol[0][0] if viol else "sequence:ok", sample={"case": "sequence", "params": p}, symbols=["family:sequence"])
             for sig, detail in viol:
                 acc.violation(sig, "sequence", p, detail)
+    elif family in ("context", "numkind"):
+        for p in item[1]:
+            viol = CASES[family](p)
+            acc.case(key=(family, core.jsonable(p)), outcome=viol[0][0] if viol else f"{family}:ok", sample={"case": family, "params": p}, symbols=[f"family:{family}", f"{family}:{p.get('context') or p['kind']}"])
+            for sig, detail in viol:
+                acc.violation(sig, family, p, detail)
     elif family == "bool":
         for p in item[1]:
             viol = case_bool(p)
@@ -651,6 +712,23 @@ def run(ctx):
             i_ = (ifmt, lo, hi, st, "int", v)
             seqs += [{"steps": [f, i_]}, {"steps": [i_, f, i_]}, {"steps": [("float", lo, hi, st, "str", str(v)), (ifmt, lo, hi, st, "str", str(v))]}]
     work += [("sequence", chunk) for chunk in _split(seqs, 40)]
+    # the Python type that carries an integer-valued input; the calling thread's decimal context
+    nk, cx = [], []
+    for fmt, lo, hi, st in (("uint8", None, None, None), ("uint8", 0, 100, 1), ("uint32", 0, U32, 1), ("int", -100, 100, 5), ("float", 0, 100, 1), ("float", None, None, None), ("uint64", 0, None, 1)):
+        for v in ("0", "1", "3", "37", "100", "250"):
+            for kind in ("bool", "intenum", "intsub", "decimal"):
+                if kind == "bool" and v not in ("0", "1"):
+                    continue
+                nk.append({"fmt": fmt, "lo": lo, "hi": hi, "st": st, "kind": kind, "v": v})
+    for fmt, lo, hi, st, in_quick in CONFIGS:
+        if not in_quick and quick:
+            continue
+        pts = sorted(_points(fmt, lo, hi, st, True, ctx.seed))
+        for x in pts[:: max(1, len(pts) // (12 if quick else 40))]:
+            for kind, v in _renderings(x, "ctx", True)[:2]:
+                for cname in DEC_CONTEXTS:
+                    cx.append({"fmt": fmt, "lo": lo, "hi": hi, "st": st, "kind": kind, "v": v, "context": cname})
+    work += [("numkind", chunk) for chunk in _split(nk, 60)] + [("context", chunk) for chunk in _split(cx, 300)]
     random.Random(ctx.seed).shuffle(work)
     ctx.pmap(_work, work)
     # (the DOCUMENTED phase ran first, so its inputs are the reported examples of the signatures they hit)
